@@ -83,6 +83,8 @@ struct St {
     packages: Vec<Option<(Package<NoCtx>, usize, i32)>>,
     /// handle, package index, which function (0 = f, 1 = other)
     handles: Vec<Option<(Handle, usize, u8)>>,
+    /// closures made with into_func(): closure, package index, which function
+    funcs: Vec<Option<(Box<dyn Fn(i32) -> i32>, usize, u8)>>,
     /// per package: (runtime index, version) even after the package was dropped
     pkg_info: Vec<(usize, i32)>,
     rt_info: Vec<i32>,
@@ -104,7 +106,7 @@ impl WorkerState for W {
         host::reset(vec![]);
         let base = live_by_tag();
         let base_tz = host::live_count().1;
-        let mut st = St { runtimes: vec![], packages: vec![], handles: vec![], pkg_info: vec![], rt_info: vec![] };
+        let mut st = St { runtimes: vec![], packages: vec![], handles: vec![], funcs: vec![], pkg_info: vec![], rt_info: vec![] };
         let mut trace: Vec<String> = Vec::new();
         let mut call_after_drop = false;
         let mut recompiled = false;
@@ -119,7 +121,7 @@ impl WorkerState for W {
             if op.len() < 3 {
                 continue;
             }
-            let (code, a, b) = (op[0] % 12, op[1], op[2]);
+            let (code, a, b) = (op[0] % 16, op[1], op[2]);
             match code {
                 0 => {
                     if st.runtimes.iter().flatten().count() < 3 {
@@ -208,6 +210,81 @@ impl WorkerState for W {
                         trace.push(format!("drop rt{r}"));
                     }
                 }
+                12 => {
+                    // a clone of a handle becomes an `impl Fn`
+                    if let Some(h) = pick(&st.handles, a) {
+                        if st.funcs.iter().flatten().count() < 4 {
+                            let (hh, p, w) = st.handles[h].as_ref().unwrap();
+                            let f = hh.clone().into_func();
+                            st.funcs.push(Some((Box::new(f), *p, *w)));
+                            trace.push(format!("c{} = h{h}.clone().into_func()", st.funcs.len() - 1));
+                        }
+                    }
+                }
+                13 => {
+                    if let Some(fi) = pick(&st.funcs, a) {
+                        let (f, p, w) = st.funcs[fi].as_ref().unwrap();
+                        let (r, v) = st.pkg_info[*p];
+                        let k = st.rt_info[r];
+                        let x = (b as i32) - 100;
+                        let want = if *w == 0 { x.wrapping_mul(v).wrapping_add(300 + v).wrapping_add(100 + k).wrapping_add(200 + k).wrapping_sub(100) } else { (300 + v).wrapping_sub(x) };
+                        eprintln!("@@ctx call-closure");
+                        let got = f(x);
+                        trace.push(format!("c{fi}({x}) = {got}"));
+                        if st.packages[*p].is_none() || st.runtimes[r].is_none() {
+                            call_after_drop = true;
+                        }
+                        if got != want {
+                            return fail("wrong-result", format!("closure c{fi}({x}) returned {got}, expected {want} (package version {v}, runtime {k})"), &trace);
+                        }
+                    }
+                }
+                14 => {
+                    if let Some(fi) = pick(&st.funcs, a) {
+                        st.funcs[fi] = None;
+                        trace.push(format!("drop c{fi}"));
+                    }
+                }
+                15 => {
+                    // several threads clone, call and drop clones of one handle at the same time
+                    if let Some(h) = pick(&st.handles, a) {
+                        let (hh, p, w) = st.handles[h].as_ref().unwrap();
+                        let (r, v) = st.pkg_info[*p];
+                        let k = st.rt_info[r];
+                        let want = if *w == 0 { 7i32.wrapping_mul(v).wrapping_add(300 + v).wrapping_add(100 + k).wrapping_add(200 + k).wrapping_sub(100) } else { (300 + v).wrapping_sub(7) };
+                        let n_threads = 2 + (b as usize % 3);
+                        let barrier = std::sync::Arc::new(std::sync::Barrier::new(n_threads));
+                        let mut ths = Vec::new();
+                        for _ in 0..n_threads {
+                            let (hc, barrier) = (hh.clone(), barrier.clone());
+                            ths.push(std::thread::spawn(move || -> bool {
+                                barrier.wait();
+                                let mut ok = true;
+                                for i in 0..300 {
+                                    let c1 = hc.clone();
+                                    let c2 = c1.clone();
+                                    drop(c1);
+                                    if i % 50 == 0 {
+                                        ok &= c2.call(7) == want;
+                                    }
+                                    drop(c2);
+                                }
+                                ok
+                            }));
+                        }
+                        trace.push(format!("{n_threads} threads clone, call and drop clones of h{h} at the same time"));
+                        for t in ths {
+                            match t.join() {
+                                Ok(true) => {}
+                                Ok(false) => return fail("wrong-result", format!("a clone of h{h} called on another thread did not return {want}"), &trace),
+                                Err(_) => return fail("thread-panicked", "a thread cloning the handle panicked".into(), &trace),
+                            }
+                        }
+                        if st.packages[*p].is_none() || st.runtimes[r].is_none() {
+                            call_after_drop = true;
+                        }
+                    }
+                }
                 _ => {
                     // the handle is moved to another thread, called there and dropped there
                     if let Some(h) = pick(&st.handles, a) {
@@ -238,7 +315,8 @@ impl WorkerState for W {
             for (ri, k) in st.rt_info.iter().enumerate() {
                 let referred = st.runtimes[ri].is_some()
                     || st.packages.iter().flatten().any(|(_, r, _)| *r == ri)
-                    || st.handles.iter().flatten().any(|(_, p, _)| st.pkg_info[*p].0 == ri);
+                    || st.handles.iter().flatten().any(|(_, p, _)| st.pkg_info[*p].0 == ri)
+                    || st.funcs.iter().flatten().any(|(_, p, _)| st.pkg_info[*p].0 == ri);
                 for tag in [100 + k, 200 + k, 500 + k, 600 + k] {
                     // values dropped on another thread are not visible in this thread's live set;
                     // that only happens when the last referrer was a handle dropped there (then nothing refers to them any more)
@@ -248,8 +326,10 @@ impl WorkerState for W {
                 }
             }
             for (pi, (_, v)) in st.pkg_info.iter().enumerate() {
-                let referred = st.packages[pi].is_some() || st.handles.iter().flatten().any(|(_, p, _)| *p == pi);
-                let same_version_referred = st.pkg_info.iter().enumerate().any(|(pj, (_, w))| w == v && (st.packages[pj].is_some() || st.handles.iter().flatten().any(|(_, p, _)| *p == pj)));
+                let referred = st.packages[pi].is_some() || st.handles.iter().flatten().any(|(_, p, _)| *p == pi) || st.funcs.iter().flatten().any(|(_, p, _)| *p == pi);
+                let same_version_referred = st.pkg_info.iter().enumerate().any(|(pj, (_, w))| {
+                    w == v && (st.packages[pj].is_some() || st.handles.iter().flatten().any(|(_, p, _)| *p == pj) || st.funcs.iter().flatten().any(|(_, p, _)| *p == pj))
+                });
                 let tag = 300 + v;
                 if referred && count(tag) == 0 {
                     return fail("released-too-early", format!("script constant with tag {tag} was dropped while its package or a handle is alive"), &trace);
@@ -259,7 +339,9 @@ impl WorkerState for W {
                 }
             }
             // the zero-sized script constant Z lives once per compiled package that is still referred to
-            let z_expected = (0..st.pkg_info.len()).filter(|pi| st.packages[*pi].is_some() || st.handles.iter().flatten().any(|(_, p, _)| p == pi)).count() as i64;
+            let z_expected = (0..st.pkg_info.len())
+                .filter(|pi| st.packages[*pi].is_some() || st.handles.iter().flatten().any(|(_, p, _)| p == pi) || st.funcs.iter().flatten().any(|(_, p, _)| p == pi))
+                .count() as i64;
             let z_now = host::live_count().1 - base_tz;
             if z_now != z_expected {
                 let sig = if z_now > z_expected { "not-released" } else { "released-too-early" };
@@ -272,6 +354,7 @@ impl WorkerState for W {
         }
         // drop everything: every tracked value must be released exactly once
         st.handles.clear();
+        st.funcs.clear();
         st.packages.clear();
         st.runtimes.clear();
         if host::live_count().1 != base_tz {
@@ -310,7 +393,7 @@ impl Prop for C11P {
         "C11"
     }
     fn rule(&self) -> String {
-        "histories of up to 40 operations (one proptest chunk each): build runtime k (registers a drop-tracked constant, a closure capturing a tracked value that scripts call, two closures made by one factory (same Rust type, different captured tracked values) that scripts call, and a closure no script uses), compile script version v on a live runtime (script constants holding a tracked value and a zero-sized drop-counted value that is never read; f(x) = x*v + K + REG + host() + host_a() - host_b()), get handle, clone handle, call, drop handle / package / runtime, move a handle to another thread, call and drop it there; oracle after every step: each call returns the model's value for its version and runtime; per tag, tracked values are alive while a runtime, package or handle refers to them, script constants are released as soon as nothing refers to their version, nothing is dropped twice, and after dropping everything the live set equals the initial one. Non-trivial: a call happens after the package and/or runtime that produced the handle were dropped, or the same script version was compiled more than once; distinct by decoded history".into()
+        "histories of up to 40 operations (one proptest chunk each): build runtime k (registers a drop-tracked constant, a closure capturing a tracked value that scripts call, two closures made by one factory (same Rust type, different captured tracked values) that scripts call, and a closure no script uses), compile script version v on a live runtime (script constants holding a tracked value and a zero-sized drop-counted value that is never read; f(x) = x*v + K + REG + host() + host_a() - host_b()), get handle, clone handle, call, drop handle / package / runtime, turn a clone into an `impl Fn` with into_func(), call and drop that closure, move a handle to another thread, call and drop it there, let 2-4 threads clone, call and drop clones of one handle at the same time; oracle after every step: each call returns the model's value for its version and runtime; per tag, tracked values are alive while a runtime, package or handle refers to them, script constants are released as soon as nothing refers to their version, nothing is dropped twice, and after dropping everything the live set equals the initial one. Non-trivial: a call happens after the package and/or runtime that produced the handle were dropped, or the same script version was compiled more than once; distinct by decoded history".into()
     }
     fn assumptions(&self) -> Vec<String> {
         vec![
